@@ -115,3 +115,15 @@ def fold_tail_bindings(stmts):
     last = _FoldTuples().visit(_SubstMany(env).visit(ast.parse(ast.unparse(stmts[-1])).body[0]))
     ast.fix_missing_locations(last)
     return stmts[:i] + [last]
+
+
+def inline_tail_locals(stmts):
+    """prefix + [name = <expr>]* + [last]  ->  prefix + [last with the names substituted]  (see inline_locals)"""
+    stmts = list(stmts)
+    i = len(stmts) - 1
+    while i > 0 and ((isinstance(stmts[i - 1], ast.Assign) and len(stmts[i - 1].targets) == 1
+                      and isinstance(stmts[i - 1].targets[0], ast.Name))
+                     or (isinstance(stmts[i - 1], ast.AnnAssign) and isinstance(stmts[i - 1].target, ast.Name)
+                         and stmts[i - 1].value is not None)):
+        i -= 1
+    return stmts[:i] + inline_locals(stmts[i:])
